@@ -79,7 +79,9 @@ class World:
         parts = {"A": self.A, "A3": self.A3, "X": self.X, "X3": self.X3, "Xneg": self.Xneg, "P": self.P,
                  "options": [self.limits, self.limits_rev, self.limits_arr, self.deltas, self.steps, self.sem], "S": self.S, "D": self.D, "T": self.T,
                  "W": self.W, "B": self.B, "B2": self.B2, "Bdesc": self.Bdesc, "B2desc": self.B2desc}
-        return {k: history.digest(v, digits if k in ("W", "B", "B2", "Bdesc", "B2desc") else None) for k, v in parts.items()}
+        out = {k: history.digest(v, digits if k in ("W", "B", "B2", "Bdesc", "B2desc") else None) for k, v in parts.items()}
+        out["process_globals"] = _globals_digest()
+        return out
 
     def state_key(self):
         """Canonical state for de-duplication: fitted objects rounded to 3 significant digits (a re-fit starts from the
@@ -88,6 +90,19 @@ class World:
                   hasattr(self.B2.distributions[-1], "parameters_per_interval"), hasattr(self.W, "parameters_per_interval"))
         exact = self.snapshot_parts()
         return (fitted, tuple(sorted((k, v) for k, v in exact.items() if k not in ("W", "B", "B2", "Bdesc", "B2desc"))))
+
+
+def _globals_digest():
+    """Process-wide settings that no evaluation may change: matplotlib rcParams, warnings filters, numpy error and print
+    settings (a library call that changes them alters the behaviour of unrelated user code)."""
+    import hashlib
+    import warnings as _w
+    import matplotlib
+    # (backend / backend_fallback are resolved by matplotlib itself on the first use of pyplot)
+    rc = repr(sorted((k, repr(v)) for k, v in matplotlib.rcParams.items() if k not in ("backend", "backend_fallback")))
+    wf = repr([(f[0], getattr(f[1], "pattern", f[1]), getattr(f[2], "__name__", f[2]), getattr(f[3], "pattern", f[3]), f[4]) for f in _w.filters])
+    ne = repr(sorted(np.geterr().items())) + repr(sorted((k, repr(v)) for k, v in np.get_printoptions().items()))
+    return hashlib.sha1((rc + wf + ne).encode()).hexdigest()
 
 
 def _lin(x, a=1.0, b=0.1):
